@@ -19,7 +19,7 @@ EXPLANATION = (
     "list', the enabled list receives an identifier only when its enabled decision is true, and the copies kept by "
     "the parser properties pair each flag with the same-named manager flag; R20c front matter is looked for before "
     "the block pass loop and only under its flag; R20d each extension's documentation page states the identifier "
-    "and the enabled default the code uses; R20f conversely, every test of an extension flag in the parser (or of a proxy for it: 'the extension's delimiter is in the gated emphasis set') opens a region in which that extension is used (directly or through a parser helper within three calls) - a flag test that only steers ordinary parser logic changes the parse of documents that do not contain the extension's syntax; R20e (=R11e) the per-document state of the pragma extension is re-created for every document, so a document without pragma syntax never carries pragmas. Not decided: that an enabled extension changes only documents containing "
+    "and the enabled default the code uses; R20f conversely, every test of an extension flag in the parser (or of a proxy for it: 'the extension's delimiter is in the gated emphasis set') opens a region in which that extension is used (directly or through a parser helper within three calls) - a flag test that only steers ordinary parser logic changes the parse of documents that do not contain the extension's syntax; R20e (=R11e) the per-document state of the pragma extension is re-created for every document, so a document without pragma syntax never carries pragmas. R20g the call into the YAML library from the front-matter extension sits under a handler for the root of that library's exceptions, so a block that is not loadable YAML falls back to plain Markdown whatever the library raises; R20h the disallowed-tag decision compares whole tag names (no prefix / suffix / substring / unanchored-pattern construct). Not decided in general: that an enabled extension changes only documents containing "
     "its syntax, and that front matter shifts positions by exactly the block's length (run-time behaviour)."
 )
 ASSUMPTIONS = ["extension code is reached only through the sites enumerated by R20a (the call graph resolves ~100 % of call sites; checked by the resolution floor)"]
